@@ -14,6 +14,7 @@ CHECK = dict(
         dict(name="devicefinder", dir=D, src="C03/devicefinder", runs=[
             dict(name="find", run="^TestVerifC03Find$", quick=80000, thorough=1000000, shards_quick=2, shards_thorough=8),
             dict(name="middleware", run="^TestVerifC03Middleware$", quick=20000, thorough=300000, shards_quick=1, shards_thorough=4),
+            dict(name="concurrent", run="^TestVerifC03Concurrent$", quick=400, thorough=8000, shards_thorough=4, race=True),
         ]),
     ],
 )
